@@ -35,6 +35,9 @@ void DownhillSimplexMethod::doInit(const ParameterList& params)
 {
   size_t nDim = getParameters().size();
   nbEval_ = 0;
+  // The starting point is simplex_[0]: forget the ranking of a previous run (optimize() reports
+  // simplex_[iLowest_] even when it makes no step).
+  iLowest_ = 0;
 
   // Initialize the simplex:
   simplex_.resize(nDim + 1);
